@@ -22,8 +22,8 @@ func init() {
 	core.Register(&core.Check{
 		ID: "C05", Level: "other", Title: "Peer-to-peer frames are integrity-checked and round-trip",
 		Technique: "codec schema agreement for every message type, registry exhaustiveness (command constants × MakeEmptyMessage arms × CmdType results), guard dominance in ReadMessage with value identity on the checked buffer, wire-bounded allocation and clamp rules",
-		Explain: "Decided statically. (Schema) every message type under p2pserver/ with both directions performs the same ordered wire operations when written and read; the frame header is written and read as u32 magic, 12 command bytes, u32 length, 4 checksum bytes. (Registry) every *_TYPE command constant has an arm in MakeEmptyMessage; the arm for constant k returns a type whose CmdType() returns k; every command fits MSG_CMD_LEN. (Reading) ReadMessage returns a message only after: the header was read; hdr.Magic == config NetworkMagic; hdr.Length <= MAX_PAYLOAD_LEN, and the payload buffer is allocated from hdr.Length only after that test; the payload was read in full; Checksum(buf) == hdr.Checksum for the very buffer that is then parsed; the command is the WHOLE 12-byte field with only trailing NULs trimmed (a frame whose padding is corrupted names no known command); MakeEmptyMessage err==nil; Deserialization(buf) err==nil. (Writing) WriteMessage checksums exactly the bytes after the header (buf[MSG_HDR_LEN:]), records their measured length and the message's CmdType(). Checksum is the first CHECKSUM_LEN bytes of sha256(sha256(data)). (Limits) the Inv and Addr decoders clamp their decoded counts to MAX_INV_BLK_CNT / MAX_ADDR_NODE_CNT before the count bounds a loop; no decoder under p2pserver/message sizes an allocation by an unbounded wire integer. NOT decided: 'every single-byte corruption is rejected' as such (it follows from these guards up to checksum collisions).",
-		Run: runC05,
+		Explain:   "Decided statically. (Schema) every message type under p2pserver/ with both directions performs the same ordered wire operations when written and read; the frame header is written and read as u32 magic, 12 command bytes, u32 length, 4 checksum bytes. (Registry) every *_TYPE command constant has an arm in MakeEmptyMessage; the arm for constant k returns a type whose CmdType() returns k; every command fits MSG_CMD_LEN. (Reading) ReadMessage returns a message only after: the header was read; hdr.Magic == config NetworkMagic; hdr.Length <= MAX_PAYLOAD_LEN, and the payload buffer is allocated from hdr.Length only after that test; the payload was read in full; Checksum(buf) == hdr.Checksum for the very buffer that is then parsed; the command is the WHOLE 12-byte field with only trailing NULs trimmed (a frame whose padding is corrupted names no known command); MakeEmptyMessage err==nil; Deserialization(buf) err==nil. (Writing) WriteMessage checksums exactly the bytes after the header (buf[MSG_HDR_LEN:]), records their measured length and the message's CmdType(). Checksum is the first CHECKSUM_LEN bytes of sha256(sha256(data)). (Limits) the Inv and Addr decoders clamp their decoded counts to MAX_INV_BLK_CNT / MAX_ADDR_NODE_CNT before the count bounds a loop; no decoder under p2pserver/message sizes an allocation by an unbounded wire integer. NOT decided: 'every single-byte corruption is rejected' as such (it follows from these guards up to checksum collisions).",
+		Run:       runC05,
 	})
 }
 
@@ -204,7 +204,9 @@ func runC05(c *core.Ctx) {
 			c.Decide(okCmd, "C05.read", fn, "the command is the whole CMD field with only trailing NULs trimmed", c.P.Rel(memCall.Pos()), detail)
 			// the message parsed is the one constructed, from the checked buffer
 			okParse := false
-			for _, ci := range ir.Calls(fn, func(ci ssa.CallInstruction) bool { return ci.Common().IsInvoke() && ci.Common().Method.Name() == "Deserialization" }) {
+			for _, ci := range ir.Calls(fn, func(ci ssa.CallInstruction) bool {
+				return ci.Common().IsInvoke() && ci.Common().Method.Name() == "Deserialization"
+			}) {
 				m, mi := ir.CallOf(ci.Common().Value)
 				src, _ := ir.CallOf(ci.Common().Args[0])
 				okParse = m == memCall && mi == 0 && src != nil && len(src.Common().Args) == 1 && isBuf(src.Common().Args[0])
@@ -233,7 +235,10 @@ func runC05(c *core.Ctx) {
 				}
 			}
 		}
-		for _, ci := range ir.Calls(fn, func(ci ssa.CallInstruction) bool { f := ci.Common().StaticCallee(); return f != nil && f.Name() == "newMessageHeader" }) {
+		for _, ci := range ir.Calls(fn, func(ci ssa.CallInstruction) bool {
+			f := ci.Common().StaticCallee()
+			return f != nil && f.Name() == "newMessageHeader"
+		}) {
 			a := ci.Common().Args
 			if cl, _ := ir.CallOf(a[0]); cl != nil && cl.Common().IsInvoke() && cl.Common().Method.Name() == "CmdType" && cl.Common().Value == ssa.Value(fn.Params[1]) {
 				okCmd = true
@@ -336,6 +341,27 @@ func runC05(c *core.Ctx) {
 					}
 				}
 			}
+		}
+		// shape-independent form: every re-slice x[:h] of the function has h <= K on every path
+		// (a constant <= K, or a value that reaches the slice only under `h <= K`, per φ edge)
+		if !(okClamp && nLoops >= 1) {
+			nSl, allOk := 0, true
+			for _, b := range fn.Blocks {
+				for _, in := range b.Instrs {
+					sl, isSl := in.(*ssa.Slice)
+					if !isSl || sl.High == nil {
+						continue
+					}
+					if _, isArr := sl.X.Type().Underlying().(*types.Pointer); isArr {
+						continue
+					}
+					nSl++
+					if !sliceBoundAtMost(fn, sl.High, k, sl, nil, 0) {
+						allOk = false
+					}
+				}
+			}
+			okClamp, nLoops = allOk && nSl >= 1, nSl
 		}
 		c.Decide(okClamp && nLoops >= 1, "C05.limits", fn, "the list kept is limited to min(decoded count, "+spec.konst+")", c.P.Rel(fn.Pos()), sprintf("%d candidate phi(s)", nLoops))
 	}
